@@ -18,6 +18,9 @@ var imports []string
 
 func NewJavaIdentifierListener() *JavaIdentifierListener {
 	nodes = nil
+	imports = nil
+	isOverrideMethod = false
+	hasEnterClass = false
 	currentNode = core_domain.NewDataStruct()
 	currentMethod = core_domain.NewJMethod()
 	return &JavaIdentifierListener{}
